@@ -439,11 +439,21 @@ func (b *assignmentBuilder) isStructFieldAccessible(structNode bmodel.Node, leaf
 		// A blank field can neither be read nor assigned.
 		return false
 	}
+	// What counts is the package the member is written in. A method belongs to
+	// the package of its named type; a field tells its package itself, which is
+	// the only way to know it for an unnamed struct type.
+	var pkg *types.Package
 	if named, ok := structType.(*types.Named); ok {
-		return !b.isExternalPkg(named.Obj().Pkg()) || ast.IsExported(leafName)
+		pkg = named.Obj().Pkg()
 	}
-	return true
-
+	if fields, ok := structType.Underlying().(*types.Struct); ok {
+		for i := 0; i < fields.NumFields(); i++ {
+			if field := fields.Field(i); field.Name() == leafName {
+				pkg = field.Pkg()
+			}
+		}
+	}
+	return !b.isExternalPkg(pkg) || ast.IsExported(leafName)
 }
 
 // isNameable returns true if the given type can be written in the current package,
